@@ -483,6 +483,11 @@ func main() {
 	s7c := &spec{L: 1, Q: 0, tasks: []taskSpec{{panics: "boom"}, {panics: errBoom}}, producers: [][]push{{{0, 0}, {1, 0}}}, polls: 2, pollers: 2}
 	s9 := &spec{L: 1, Q: 1, tasks: []taskSpec{{panics: "boom"}, {yields: 1}, {yields: 1}}, producers: [][]push{{{0, 0}, {1, 0}, {2, 0}}}, monitorRun: true}
 	s9b := &spec{L: 2, Q: 1, tasks: []taskSpec{{panics: 42}, {yields: 1}, {yields: 1}, {yields: 1}}, producers: [][]push{{{0, 0}, {1, 0}, {2, 1}, {3, 0}}}, monitorRun: true}
+	// three lanes: a busy lane's second task must go to exactly one of the two idle workers
+	s19 := &spec{L: 3, Q: 1, tasks: []taskSpec{{pin: pinForever}, {yields: 1}, {}}, producers: [][]push{{{0, 0}, {1, 0}, {2, 0}}}, monitorRun: true}
+	// a task panics, another one is still running when the context is cancelled: Wait must wait for it
+	s18 := &spec{L: 1, Q: 1, tasks: []taskSpec{{panics: "boom"}, {pin: pinUntilRelease}, {}}, producers: [][]push{{{0, 0}, {1, 0}, {2, 0}}}, cancel: "cancel", wait: true, release: true, events: true}
+	s18b := &spec{L: 2, Q: 1, tasks: []taskSpec{{panics: "boom"}, {panics: errBoom}, {yields: 1}}, producers: [][]push{{{0, 0}, {1, 1}, {2, 0}}}, cancel: "cancel", wait: true}
 	// after a panic on each worker, two tasks that can only finish when both are running at once
 	s17 := &spec{L: 2, Q: 1, tasks: []taskSpec{{panics: "boom"}, {panics: errBoom}, {pin: pinBarrier}, {pin: pinBarrier}}, producers: [][]push{{{0, 0}, {1, 1}, {2, 0}, {3, 0}}}}
 	s17b := &spec{L: 1, Q: 1, tasks: []taskSpec{{panics: "boom"}, {}, {panics: 42}, {}}, producers: [][]push{{{0, 0}, {1, 0}, {2, 0}, {3, 0}}}}
@@ -577,7 +582,7 @@ func main() {
 			Quick: PS(8, b012...), Thorough: PS(16, unb...), Body: body(s7d)},
 		{Name: "s10-L65Q1-wide", Props: []string{"C14"}, About: "wide but shallow: 65 lanes, every worker pinned, two tasks waiting on lane 64; the pending count is compared exactly",
 			Quick: sdrive.Plan{Delay: true, Wide: true, Bounds: []int{0}}, Thorough: sdrive.Plan{Delay: true, Wide: true, Bounds: []int{0, 1}}, Body: body(s10)},
-		{Name: "s12-L9Q1-wide", Props: []string{"C08"}, About: "wide but shallow: 9 lanes, 8 never-ending tasks and a probe all pushed to lane 0: the ninth worker must run the probe",
+		{Name: "s12-L9Q1-wide", Props: []string{"C08", "C06"}, About: "wide but shallow: 9 lanes, 8 never-ending tasks and a probe all pushed to lane 0: the ninth worker must run the probe",
 			Quick: sdrive.Plan{Delay: true, Wide: true, Bounds: []int{0, 1}}, Thorough: sdrive.Plan{Delay: true, Wide: true, Bounds: []int{0, 1, 2}}, Body: body(s12)},
 		{Name: "s16-L2Q1-long-run", Props: []string{"C06", "C08"}, About: "wide but shallow in time: one worker pinned for ever, 24 tasks pushed alternately to both lanes - every one must be started exactly once by the free worker (per-worker counters, every-Nth-round logic)",
 			Quick: sdrive.Plan{Delay: true, Wide: true, Bounds: []int{0, 1}}, Thorough: sdrive.Plan{Delay: true, Wide: true, Bounds: []int{0, 1, 2}, Shards: 16}, Body: body(s16)},
@@ -591,6 +596,12 @@ func main() {
 			Quick: D(0, 1, 2, 3), Thorough: DS(16, 0, 2, 4, 6), Body: body(s17)},
 		{Name: "s17b-L1Q1-panic-task-panic-task", Props: []string{"C14"}, About: "one worker: panic, task, panic, task - the worker must survive every panic",
 			Quick: P(b012...), Thorough: PS(16, unb...), Body: body(s17b)},
+		{Name: "s19-L3Q1-busy-lane-two-idle", Props: []string{"C06", "C08"}, About: "three lanes: lane 0's worker is pinned, two more tasks are pushed to lane 0 while two other workers are idle - each must be started exactly once",
+			Quick: D(0, 1, 2, 3), Thorough: DS(16, 0, 2, 4, 6), Body: body(s19)},
+		{Name: "s18-L1Q1-panic-then-cancel", Props: []string{"C07"}, About: "a task panics, the next one is still running when the context is cancelled (released later): Wait returns only after it, nothing is left behind",
+			Quick: PS(8, b012...), Thorough: PS(16, unb...), Body: body(s18), MinOutcomes: 2},
+		{Name: "s18b-L2Q1-two-panics-then-cancel", Props: []string{"C07"}, About: "a panic on each worker, a third task, cancel at every step, Wait",
+			Quick: D(0, 1, 2, 3), Thorough: DS(16, 0, 2, 4, 6), Body: body(s18b), MinOutcomes: 2},
 		{Name: "s8-L2Q1-stable", Props: []string{"C14"}, About: "both workers pinned, three tasks queued: pending count compared exactly at rest",
 			Quick: D(0, 1, 2, 3), Thorough: DS(16, 0, 2, 4, 6, 8), Body: body(s8)},
 	}
